@@ -297,7 +297,14 @@ def r4_scoping(ctx):
 
 
 def run(ctx):
-    return [r1_siblings(ctx), r2_output_table(ctx), r3_input_table(ctx), r4_scoping(ctx)]
+    # both flavours denote the text only if each of them emits every piece: the emission clauses of C01.R4 (the view
+    # back-end regroups large blocs into nested tuples, the string back-end does not; decided by rules/c01.py)
+    from rules import c01
+    from rules.common import borrow
+    r5 = borrow(c01.r4_emission(ctx), "C02.R5", "each back-end emits every collected piece, in order",
+                "`all denote the same text`: a piece dropped by one back-end only (e.g. while regrouping a long value for the view) "
+                "makes the flavours diverge on that value", floor=20)
+    return [r1_siblings(ctx), r2_output_table(ctx), r3_input_table(ctx), r4_scoping(ctx), r5]
 
 
 MANIFEST_ENTRY = {
